@@ -1047,13 +1047,10 @@ func runSeq(w witness, monitorAll bool, visit func(string), state func(bs, segs 
 }
 
 type enumUnit struct {
-	w      witness
-	depth  int
-	alpha  []op
-	label  string
-	tiny   bool
-	nodes  *atomic.Int64
-	deepen int
+	w     witness
+	depth int
+	alpha []op
+	nodes *atomic.Int64
 }
 
 func freeIndices(bs, segs int) []int {
@@ -1672,28 +1669,21 @@ func runConc(w witness, cnt map[string]int64) (v *vio, herr error) {
 		}(g)
 	}
 	go func() { wg.Wait(); close(done) }()
-	select {
-	case <-done:
-	case <-func() <-chan struct{} {
-		// a goroutine that panicked inside the allocator may have left its mutex locked: once a violation is
-		// recorded the others are given a grace period and then abandoned (the verdict is already decided)
-		c := make(chan struct{})
-		go func() {
-			for first.Load() == nil {
+	// a goroutine that panicked inside the allocator may have left its mutex locked: once a violation is
+	// recorded the others get a grace period and are then abandoned (the verdict is already decided)
+	for waiting := true; waiting; {
+		select {
+		case <-done:
+			waiting = false
+		case <-time.After(100 * time.Millisecond):
+			if first.Load() != nil {
 				select {
 				case <-done:
-					return
-				case <-time.After(50 * time.Millisecond):
+				case <-time.After(5 * time.Second):
 				}
+				waiting = false
 			}
-			select {
-			case <-done:
-			case <-time.After(5 * time.Second):
-				close(c)
-			}
-		}()
-		return c
-	}():
+		}
 	}
 	if x := first.Load(); x != nil {
 		x.what = fmt.Sprintf("concurrent bs=%d size=%d %s G=%d hold=%d seed=%d: %s", w.BS, w.Size, w.Backend, w.G, w.Hold, w.Seed, x.what)
@@ -1859,9 +1849,15 @@ func TestCheck(t *testing.T) {
 		enumeration(run, 4, 2000)
 		return
 	}
+	phases := map[string]float64{}
+	t0 := time.Now()
+	lap := func(name string) { phases[name] = time.Since(t0).Seconds(); t0 = time.Now() }
+	defer func() { run.Note("phase_wall_s", phases) }()
 	geometrySweep(run)
+	lap("geometry")
 	maxDepth := run.Pick(8, 11)
 	enumeration(run, maxDepth, int64(run.Pick(40_000, 3_000_000)))
+	lap("enumeration")
 	inmem, mmf, huge := walkCases(run)
 	var wg sync.WaitGroup
 	if len(huge) > 0 {
@@ -1870,6 +1866,7 @@ func TestCheck(t *testing.T) {
 	}
 	runWalks(run, append(inmem, mmf...), runtime.NumCPU())
 	wg.Wait()
+	lap("walks")
 	run.Note("walk_full_check_every", "inmem bs=8: every operation; bs=64: every 25; bs=512: every 1000; mapped files: every 150-3000 (rotating second mapping / Close+reopen / os.ReadFile); plus whenever a target fill level (0, each segment boundary, 100 %) is first reached; the O(1) monitor (result class, Available, patterns of the touched block and its neighbours, address range) runs after every operation")
 	if len(inmem) > 0 {
 		run.Sample(inmem[0])
@@ -1878,6 +1875,7 @@ func TestCheck(t *testing.T) {
 		run.Sample(mmf[len(mmf)-1])
 	}
 	concurrency(run, false)
+	lap("concurrency")
 }
 
 func replay(run *report.Run, path string) {
